@@ -1,14 +1,18 @@
 """C20 — descriptor hygiene (DESIGN §4 C20)."""
 import lm
+import re
 import rules
 from lm import S, strip, cval, walk
-from props.common import Ctx, has, fmt_facts
+from props.common import Ctx, has, fmt_facts, EQ
 
 LEVEL = "other"
 
 OPENERS = {"epoll_create1", "epoll_create", "pipe", "pipe2", "timerfd_create", "signalfd", "inotify_init1", "inotify_init", "eventfd", "dup",
            "dup2", "dup3", "open", "openat", "socket", "accept", "accept4", "creat", "fopen", "memfd_create", "pidfd_open", "syscall",
            "kqueue", "io_uring_queue_init", "socketpair", "fdopen"}
+
+
+value_sources = rules.value_sources
 
 
 def run(ck, P):
@@ -62,16 +66,19 @@ def run(ck, P):
             # the closed value is a local: every non-constant definition must be the source's own descriptor, and every path to the
             # close must have taken the AUTOCLOSE branch and a PS/FD case of the type switch
             a0 = strip(ev.args[0])
-            defs = [d for d in f.events() if d.kind in ("decl", "assign") and d.lhs is not None and S(d.lhs) == S(a0) and d.rhs is not None]
-            srcs = {S(d.rhs) for d in defs if cval(d.rhs) is None}
-            ok = a0["k"] == "var" and srcs == {"t->fd_src.fd"} or arg == "t->fd_src.fd"
+            srcs = value_sources(f, S(a0)) if a0["k"] == "var" else {S(a0)}
+            srcs = {x for x in srcs if not re.match(r"^-?\d+$", x)}
+            ok = srcs == {"t->fd_src.fd"} or arg == "t->fd_src.fd"
             n = 0
             for path in f.paths(prune=False):
                 feas, _env, a, evs = rules.simulate(f, path)
                 if not feas or ev not in evs:
                     continue
                 n += 1
-                if a.get("(t->flags & %d)" % AC) is not True or not (a.get("(t->type == %d)" % E["M_SRC_TYPE_FD"]) is True or a.get("(t->type == %d)" % E["M_SRC_TYPE_PS"]) is True):
+                def is_(tv):
+                    at_, pol_ = EQ("t->type", tv)
+                    return a.get(at_) is pol_ or a.get("(t->type == %d)" % tv) is True
+                if a.get("(t->flags & %d)" % AC) is not True or not (is_(E["M_SRC_TYPE_FD"]) or is_(E["M_SRC_TYPE_PS"])):
                     ok = False
             ok = ok and n > 0
             why = "auto-close descriptor of a PS/FD source (%d path(s))" % n if ok else "user descriptor closed without the AUTOCLOSE / PS|FD tests"
@@ -206,6 +213,28 @@ def run(ck, P):
           "every path through the source destructor removes it from the poll set" if ok else
           "poll removal (close of the internal timerfd/eventfd/…, free of the epoll record) happens only under %s: a source destroyed while its "
           "owner is not RUNNING (one-shot source kept alive by a user-held event past stop) leaks its descriptor" % fmt_facts(frozenset(x for x in facts if "m_mod_is" in x[0])))
+    # context-owned sources (the tick) have no module: the destructor's removal (guarded by the owner module's state) never applies to
+    # them, so deregister_ctx_src must take them out of the poll set itself before it drops the reference
+    dc = P.fn("deregister_ctx_src")
+    ck.analysed(dc)
+    rel = [e for e in dc.calls() if e.callee in ("m_mem_unrefp", "m_mem_unref")]
+    ck.need(rel, "deregister_ctx_src no longer releases the source")
+    badd = None
+    nd = 0
+    for path in dc.paths():
+        evs = list(rules.path_events(dc, path))
+        r_ = [e for e in evs if e in rel]
+        if not r_:
+            continue
+        nd += 1
+        ri = evs.index(r_[0])
+        if not any(e.kind == "call" and e.callee == "poll_set_new_evt" and cval(e.args[2]) == E["RM"] and S(e.args[1]).lstrip("*") in S(r_[0].args[0])
+                   for e in evs[:ri]):
+            badd = path
+    ck.ob("C20.4-RELEASE", dc.site("poll removal before release"), badd is None and nd > 0,
+          "%d releasing path(s) of deregister_ctx_src remove the source from the poll set first" % nd if badd is None else
+          "deregister_ctx_src drops a context source without poll_set_new_evt(…, RM): nothing else removes a module-less source, its timer descriptor "
+          "and poll record leak and the poll set keeps a pointer to freed memory", path=rules.fmt_path(dc, badd) if badd else None)
     dtor_like = {"src_priv_dtor", "poll_destroy"}
     for ev in closes:
         f = ev.fn
